@@ -39,6 +39,15 @@ pub trait Engine: Sync {
   fn reproduce_attempts(&self) -> u32 {
     1
   }
+  /// Probes that must run in a child process because the failure they look for (stack overflow, abort) cannot be
+  /// caught in-process. Once per batch; the parent reads the child's exit status.
+  fn crash_probes(&self, _property: &str, _tier: &str) -> Vec<String> {
+    Vec::new()
+  }
+  /// Child side of a crash probe: returns a one-line outcome if the code under test returned at all.
+  fn run_crash_probe(&self, _property: &str, _name: &str) -> String {
+    "no such probe".to_owned()
+  }
 }
 
 /// Re-executes `tape` until a violation of `invariant` shows (at most `engine.reproduce_attempts()` times).
@@ -564,6 +573,63 @@ pub fn run_batch(engine: &dyn Engine, cfg: &BatchCfg) -> BatchResult {
     }
   }
 
+  // Crash probes: one child process each. A child that ends by a signal (stack overflow: SIGABRT / SIGSEGV) or with
+  // the panic exit code is a crash of the code under test on the probe's fixed input.
+  let mut crash_probe_results: Vec<Value> = Vec::new();
+  for name in engine.crash_probes(&cfg.property, &cfg.tier) {
+    let (crashed, outcome) = run_crash_probe_child(engine.name(), &cfg.property, &name);
+    crash_probe_results.push(json!({"probe": name, "crashed": crashed, "outcome": outcome}));
+    let Some(crashed) = crashed else {
+      eprintln!("HARNESS-ERROR property={} crash probe {name}: {outcome}", cfg.property);
+      exit_code = 2;
+      continue;
+    };
+    if !crashed {
+      continue;
+    }
+    let v = Violation {
+      property: cfg.property.clone(),
+      invariant: format!("{}.error_never_crash", cfg.property),
+      signature: format!("crash-probe/{name}/process-ended-abnormally"),
+      message: format!("child process running crash probe {name} did not return: {outcome}"),
+    };
+    if let Some(desc) = known.matches(&v) {
+      known_lines.push(format!(
+        "KNOWN-FINDING: property={} invariant={} signature={} runs=1 first_run=crash-probe {}",
+        v.property, v.invariant, v.signature, desc
+      ));
+      continue;
+    }
+    let dir = format!("{}/replays", cfg.verif_dir);
+    let _ = std::fs::create_dir_all(&dir);
+    let path = format!("{dir}/{}-crash-probe-{}.json", cfg.property, name);
+    let value = json!({
+      "engine": engine.name(),
+      "property": cfg.property,
+      "invariant": v.invariant,
+      "signature": v.signature,
+      "message": v.message,
+      "crash_probe": name,
+      "note": "fixed input, no tape: `idsim replay <this file>` re-runs the probe in a child process",
+    });
+    match std::fs::write(&path, serde_json::to_string_pretty(&value).unwrap()) {
+      Ok(()) => {
+        violation_lines.push(format!(
+          "VIOLATION property={} replay={} invariant={} signature={} runs=1 message={}",
+          cfg.property, path, v.invariant, v.signature, v.message
+        ));
+        replay_paths.push(path);
+        if exit_code == 0 {
+          exit_code = 1;
+        }
+      }
+      Err(e) => {
+        eprintln!("HARNESS-ERROR cannot write replay file {path}: {e}");
+        exit_code = 2;
+      }
+    }
+  }
+
   // Reach probes.
   let mut stuck: Vec<String> = Vec::new();
   for p in engine.required_probes(&cfg.property, &cfg.tier) {
@@ -649,6 +715,7 @@ pub fn run_batch(engine: &dyn Engine, cfg: &BatchCfg) -> BatchResult {
       "violation_lines": violation_lines,
       "replay_files": replay_paths,
       "reach_probes_stuck": stuck,
+      "crash_probes": crash_probe_results,
       "engine": engine.name(),
       "worker_threads": cfg.threads,
       "params": cfg.params,
@@ -681,6 +748,36 @@ pub fn run_batch(engine: &dyn Engine, cfg: &BatchCfg) -> BatchResult {
   BatchResult { exit_code }
 }
 
+/// Runs one crash probe in a child process. (Some(true), ..) = the child ended abnormally; (Some(false), outcome) =
+/// the code under test returned; (None, ..) = the probe could not be run.
+pub fn run_crash_probe_child(engine: &str, property: &str, name: &str) -> (Option<bool>, String) {
+  let exe = match std::env::current_exe() {
+    Ok(e) => e,
+    Err(e) => return (None, format!("no current exe: {e}")),
+  };
+  let out = match std::process::Command::new(exe).arg("probe").arg(engine).arg(property).arg(name).output() {
+    Ok(o) => o,
+    Err(e) => return (None, format!("cannot spawn: {e}")),
+  };
+  let stdout = String::from_utf8_lossy(&out.stdout).trim().to_owned();
+  match out.status.code() {
+    Some(0) => (Some(false), stdout),
+    Some(3) => (None, format!("probe reported a harness problem: {stdout}")),
+    Some(c) => (Some(true), format!("exit code {c}; {}", String::from_utf8_lossy(&out.stderr).lines().last().unwrap_or(""))),
+    None => {
+      use std::os::unix::process::ExitStatusExt;
+      (
+        Some(true),
+        format!(
+          "killed by signal {}; {}",
+          out.status.signal().unwrap_or(0),
+          String::from_utf8_lossy(&out.stderr).lines().filter(|l| l.contains("overflow") || l.contains("fatal")).collect::<Vec<_>>().join(" / ")
+        ),
+      )
+    }
+  }
+}
+
 /// Re-executes a replay file. Exit code 1 = violation reproduced exactly, 2 = did not reproduce.
 pub fn replay_file(engine_for: &dyn Fn(&str) -> Option<Box<dyn Engine>>, path: &str, quiet: bool) -> i32 {
   ctx::install_panic_hook();
@@ -705,6 +802,28 @@ pub fn replay_file(engine_for: &dyn Fn(&str) -> Option<Box<dyn Engine>>, path: &
   };
   let property = v["property"].as_str().unwrap_or("").to_owned();
   let invariant = v["invariant"].as_str().unwrap_or("").to_owned();
+  if let Some(name) = v["crash_probe"].as_str() {
+    let (crashed, outcome) = run_crash_probe_child(engine.name(), &property, name);
+    if !quiet {
+      println!("crash probe {name}: {outcome}");
+    }
+    return match crashed {
+      Some(true) => {
+        if !quiet {
+          println!("VIOLATION property={property} replay={path}");
+        }
+        1
+      }
+      Some(false) => {
+        eprintln!("replay did not reproduce: the probe returned ({outcome})");
+        2
+      }
+      None => {
+        eprintln!("replay could not run: {outcome}");
+        2
+      }
+    };
+  }
   let params: Params = serde_json::from_value(v["params"].clone()).unwrap_or_default();
   let tape: Vec<u32> = serde_json::from_value(v["tape"].clone()).unwrap_or_default();
   let want_hash = v["trace_hash"].as_str().unwrap_or("").to_owned();
